@@ -499,7 +499,7 @@ func hangClass(prop, stderr string) (string, bool) {
 			continue
 		}
 		lines := strings.Split(g, "\n")
-		if len(lines) < 2 || !strings.HasPrefix(lines[1], "diagonal.works/b6") {
+		if !innermostIsB6(lines) {
 			continue // the innermost frame must be b6 code
 		}
 		// class: the outermost b6 function of that task (the innermost one
@@ -520,6 +520,23 @@ func hangClass(prop, stderr string) (string, bool) {
 
 var reRaceFunc = regexp.MustCompile(`(?m)^  (diagonal\.works/b6\S*?)\(\)\s*$`)
 
+// innermostIsB6: the goroutine's innermost frame is b6 code, not counting
+// the simulator's own helpers that instrumented code calls (a preemption
+// point that did not fire, a map-order wrapper).
+func innermostIsB6(lines []string) bool {
+	for i := 1; i < len(lines); i += 2 {
+		switch {
+		case strings.HasPrefix(lines[i], "verif/simrt"):
+			continue
+		case strings.HasPrefix(lines[i], "diagonal.works/b6"):
+			return true
+		default:
+			return false
+		}
+	}
+	return false
+}
+
 // hangDetail extracts the stack of the goroutine that hangClass found.
 func hangDetail(stderr string) string {
 	i := strings.Index(stderr, "WATCHDOG:")
@@ -529,7 +546,7 @@ func hangDetail(stderr string) string {
 	for _, g := range strings.Split(stderr[i:], "\n\n") {
 		m := reGoroutine.FindStringSubmatch(g)
 		if m != nil && (m[1] == "running" || m[1] == "runnable") && strings.Contains(g, "synctest bubble") {
-			if lines := strings.Split(g, "\n"); len(lines) > 1 && strings.HasPrefix(lines[1], "diagonal.works/b6") {
+			if innermostIsB6(strings.Split(g, "\n")) {
 				return firstLines(g, 24)
 			}
 		}
